@@ -109,7 +109,7 @@ func ruleSortShared(w *core.World, r *core.Report, rule string, pkgs ...string) 
 		if !in {
 			continue
 		}
-		for _, c := range core.Calls(f) {
+		for _, c := range core.OwnCalls(f) {
 			k := core.CalleeKey(c)
 			hit := false
 			for _, s := range inPlaceSorters {
@@ -282,7 +282,7 @@ func ruleCaseAlternativesLoaded(w *core.World, r *core.Report, rule string) {
 	fl := w.NewFlow()
 	nSrc := 0
 	for _, f := range w.RepoFns {
-		for _, c := range core.Calls(f) {
+		for _, c := range core.OwnCalls(f) {
 			if core.CalleeIs(c, "tree.choiceCasesResolver.GetElementNames", "tree.choiceCasesResolvers.GetChoiceElementNeighbors", "tree.choiceCasesResolvers.GetSkipElements", "tree.choiceCasesResolver.GetSkipElements") {
 				if v := c.Value(); v != nil {
 					fl.AddSource(v)
@@ -299,7 +299,7 @@ func ruleCaseAlternativesLoaded(w *core.World, r *core.Report, rule string) {
 		if strings.Contains(core.FuncKey(f), "mocks/") {
 			continue
 		}
-		for _, c := range core.Calls(f) {
+		for _, c := range core.OwnCalls(f) {
 			if !core.CalleeIs(c, "tree.TreeCacheClient.Read", "tree.TreeCacheClient.ReadCurrentUpdatesHighestPriorities", "tree.TreeCacheClientImpl.Read", "tree.TreeCacheClientImpl.ReadCurrentUpdatesHighestPriorities", "cache.Client.Read", "cache.Client.ReadCh") {
 				continue
 			}
@@ -375,7 +375,7 @@ func ruleDecimalSign(w *core.World, r *core.Report, rule string) {
 				}
 			}
 		}
-		for _, c := range core.Calls(f) {
+		for _, c := range core.OwnCalls(f) {
 			if !core.CalleeIs(c, formatters...) {
 				continue
 			}
